@@ -107,15 +107,19 @@ def run(ctx, drv):
             ctx.case(("types-after-construction", name, first, second), len(seen) > 0)
     ctx.count("types_declared_after_construction_runs", 12)
     # ---- CMA-ES in moderate dimension with boxes that are narrow relative to its step size (sampling has to repair / resample often)
-    for widths, seed_ in (([(-1.0, 1.0)] * 10 + [(0.0, 0.5)] * 4, 7), ([(-1.0, 1.0)] * 8 + [(0.0, 0.5)] * 3, rng.randrange(2 ** 31)),
-                          ([(2.0, 4.0)] * 9 + [(-0.5, 0.0)] * 3, rng.randrange(2 ** 31))):
+    for widths, seed_, sigma_, budget_ in (([(-1.0, 1.0)] * 10 + [(0.0, 0.5)] * 4, 7, None, 1500), ([(-1.0, 1.0)] * 8 + [(0.0, 0.5)] * 3, rng.randrange(2 ** 31), None, 1500),
+                                           ([(2.0, 4.0)] * 9 + [(-0.5, 0.0)] * 3, rng.randrange(2 ** 31), None, 1500),
+                                           # a box a hundred times narrower than the step size, and a step size twenty times the box:
+                                           # every value of the very first generation needs hundreds of draws
+                                           ([(0.0, 0.01), (0.0, 1.0)], rng.randrange(2 ** 31), None, 96), ([(0.0, 1.0), (0.0, 1.0)], rng.randrange(2 ** 31), 20.0, 60),
+                                           ([(5.0, 5.02)], rng.randrange(2 ** 31), None, 96)):
         seen = []
         nv = len(widths)
         p = Problem(nv, 1, function=lambda x: (seen.append(list(x)) or [sum((v - 0.1) ** 2 for v in x)]))
         p.types[:] = [Real(lo, hi) for lo, hi in widths]
         _random.seed(seed_)
-        r = plat.call_guarded(lambda: A.CMAES(p, offspring_size=12).run(1500), seconds=60)
-        inp = {"algorithm": "CMAES", "declared": [list(w) for w in widths], "seed": seed_, "offspring_size": 12}
+        r = plat.call_guarded(lambda: A.CMAES(p, offspring_size=12, **({"sigma": sigma_} if sigma_ else {})).run(budget_), seconds=60)
+        inp = {"algorithm": "CMAES", "declared": [list(w) for w in widths], "seed": seed_, "offspring_size": 12, "sigma": sigma_}
         if isinstance(r, str):
             ctx.fail("run-raises", inp, r, "a completed run", "algorithms.CMAES")
             continue
@@ -123,8 +127,8 @@ def run(ctx, drv):
         if bad:
             ctx.fail("invalid-argument-to-problem-function", dict(inp, argument=bad[0][0], variable=bad[0][1]), bad[0][0][bad[0][1]],
                      f"in {list(widths[bad[0][1]])}", "algorithms.CMAES.sample")
-        ctx.case(("cmaes-narrow", nv, seed_), len(seen) >= 1000)
-    ctx.count("cmaes_narrow_box_runs", 3)
+        ctx.case(("cmaes-narrow", nv, seed_), len(seen) >= 12)
+    ctx.count("cmaes_narrow_box_runs", 6)
     # ---- registry
     for tname, cls in (("Real", T.Real), ("Binary", T.Binary), ("Integer", T.Integer), ("Permutation", T.Permutation), ("Subset", T.Subset)):
         for what, getter in (("variator", PlatypusConfig.default_variator), ("mutator", PlatypusConfig.default_mutator)):
